@@ -119,7 +119,10 @@ return _FN
         counter = unparse(next(x for x in loop.body if isinstance(x, ast.AugAssign)).target)
         names = {x.id for x in ast.walk(cand) if isinstance(x, ast.Name)}
         ok = {'name', 'ext', counter} <= names
-    ctx.add('C14.R1', 'get_new_file_name', ok, g, 'a candidate name is returned only when no file of that name exists; candidates are numbered' if ok else 'get_new_file_name no longer loops until the name is free', 'loop')
+    # the contradiction: a candidate is declared free by looking its text up in a listing of a directory that does not depend on the name
+    blind = None if ok else _free_by_foreign_listing(g)
+    ctx.add('C14.R1', 'get_new_file_name', ok, (g.file, blind[0]) if blind else g, 'a candidate name is returned only when no file of that name exists; candidates are numbered' if ok else
+            (blind[1] if blind else 'get_new_file_name no longer loops until the name is free'), 'loop', positive=bool(blind))
 
     BR = prog.cls('results', 'bioResults')
     gp = BR.methods['get_estimated_parameters']
@@ -684,6 +687,82 @@ def _holds_for_a_value(test: ast.expr, ev: str) -> str | None:
     return None
 
 
+#: calls that ask the file system about one path / that move the directory relative names refer to
+_PROBES = {'is_file', 'exists', 'isfile', 'lexists', 'stat', 'lstat', 'access', 'open', 'chdir', 'is_dir', 'isdir', 'resolve', 'samefile', 'touch'}
+
+
+def _free_by_foreign_listing(g: FuncInfo) -> tuple[int, str] | None:
+    """get_new_file_name decides that a candidate is free with `candidate in S` (the only test of its only loop), S being built once,
+    before the loop, from ONE listing of a directory (os.listdir / os.scandir / Path.iterdir / glob) whose argument does not depend on
+    the name asked for, while the candidate does; nothing in the function asks the file system about the candidate itself.
+    A name with a directory part is then never found among the entries, whatever the files that exist: (line, what is wrong).
+    None: any other shape (nothing is claimed)."""
+    node = g.node
+    params = g.positional_params()
+    if not params:
+        return None
+    calls = [c for c in walk_no_nested(node) if isinstance(c, ast.Call)]
+    if any((c.func.attr if isinstance(c.func, ast.Attribute) else call_name(c)) in _PROBES for c in calls):
+        return None
+    if any(isinstance(x, (ast.FunctionDef, ast.AsyncFunctionDef, ast.Lambda, ast.Try, ast.With, ast.Global, ast.Nonlocal)) for st in node.body for x in ast.walk(st)):
+        return None
+    loops = [x for x in walk_no_nested(node) if isinstance(x, (ast.While, ast.For))]
+    if len(loops) != 1 or not isinstance(loops[0], ast.While) or loops[0] not in node.body or loops[0].orelse:
+        return None
+    loop = loops[0]
+    t = loop.test
+    if not (isinstance(t, ast.Compare) and len(t.ops) == 1 and isinstance(t.ops[0], ast.In) and isinstance(t.left, ast.Name) and isinstance(t.comparators[0], ast.Name)):
+        return None
+    cand, coll = t.left.id, t.comparators[0].id
+    if any(isinstance(x, (ast.Break, ast.Return, ast.Raise)) for st in loop.body for x in ast.walk(st)):
+        return None
+    # what depends on the arguments - the name asked for, the extension (copies and texts assembled from them, to a fixed point)
+    assigns = [a for a in walk_no_nested(node) if isinstance(a, (ast.Assign, ast.AnnAssign, ast.AugAssign, ast.NamedExpr))]
+    tainted = set(g.params()) - {'self', 'cls'}
+    changed = True
+    while changed:
+        changed = False
+        for a in assigns:
+            if a.value is None:
+                continue
+            tg = a.targets if isinstance(a, ast.Assign) else [a.target]
+            if any(isinstance(x, ast.Name) and x.id in tainted for x in ast.walk(a.value)):
+                for x in (y for t_ in tg for y in ast.walk(t_) if isinstance(y, ast.Name)):
+                    if x.id not in tainted:
+                        tainted.add(x.id)
+                        changed = True
+    # the collection: one assignment, a statement of the body before the loop; nothing else touches it (no method call on it, no other use than the test)
+    defs = [a for a in assigns if any(isinstance(x, ast.Name) and x.id == coll for t_ in (a.targets if isinstance(a, ast.Assign) else [a.target]) for x in ast.walk(t_))]
+    if len(defs) != 1 or not isinstance(defs[0], ast.Assign) or defs[0] not in node.body or seq(defs[0]) > seq(loop) or len(defs[0].targets) != 1 or not isinstance(defs[0].targets[0], ast.Name):
+        return None
+    uses = [x for x in walk_no_nested(node) if isinstance(x, ast.Name) and x.id == coll and isinstance(x.ctx, ast.Load)]
+    if len(uses) != 1 or coll in tainted:
+        return None
+    # every definition of the candidate depends on the name, and it is what the function returns
+    cdefs = [a for a in assigns if any(isinstance(x, ast.Name) and x.id == cand for t_ in (a.targets if isinstance(a, ast.Assign) else [a.target]) for x in ast.walk(t_))]
+    if not cdefs or cand not in tainted or not all(isinstance(a, ast.Assign) and any(isinstance(x, ast.Name) and x.id in tainted for x in ast.walk(a.value)) for a in cdefs):
+        return None
+    rets = [r for r in walk_no_nested(node) if isinstance(r, ast.Return)]
+    if len(rets) != 1 or not isinstance(rets[0].value, ast.Name) or rets[0].value.id != cand or rets[0] is not node.body[-1]:
+        return None
+    # the value of the collection: exactly one listing call in it, and no name that depends on the name asked for
+    val = defs[0].value
+    if any(isinstance(x, ast.Name) and x.id in tainted for x in ast.walk(val)):
+        return None
+    listings = []
+    for c in (x for x in ast.walk(val) if isinstance(x, ast.Call)):
+        nm = dotted(c.func) or ''
+        attr = c.func.attr if isinstance(c.func, ast.Attribute) else None
+        if nm in ('os.listdir', 'os.scandir', 'listdir', 'scandir', 'glob.glob', 'glob.iglob') or attr in ('iterdir', 'glob', 'rglob'):
+            listings.append(c)
+    if len(listings) != 1:
+        return None
+    where = unparse(listings[0])
+    return loop.lineno, (f'`while {unparse(t)}`: a candidate is declared free when its text is not among the entries of `{where}` (collected once into {coll}, line {defs[0].lineno}), '
+                         f'a listing that does not depend on `{params[0]}`; the file system is never asked about the candidate itself. A name with a directory part '
+                         f"(model name 'out/m') is never among these entries, so {params[0]}.{params[1] if len(params) > 1 else 'ext'} is returned although that file exists - an existing file can be replaced")
+
+
 def _origins(cfg, expr: ast.expr, at: int, depth: int = 6) -> list[tuple[str, str]]:
     """Where the value of a file-name expression comes from at cfg node ``at``: list of (tag, text) over the definitions that reach it
     'fresh'       the result of get_new_file_name(...)
@@ -856,6 +935,9 @@ MUTANTS = [
     dict(name='new writer without fresh name', rule='C14.R1', file='src/biogeme/database.py',
          old='    def is_panel(self) -> bool:', new="    def save(self) -> None:\n        self.data.to_csv(f'{self.name}.csv')\n\n    def is_panel(self) -> bool:"),
     dict(name='get_new_file_name checks once', rule='C14.R1', file='src/biogeme/filenames.py', old='    while the_file.is_file():', new='    if the_file.is_file():'),
+    dict(name='get_new_file_name looks candidates up in a listing of the current directory (round 9 C14/9)', rule='C14.R1', file='src/biogeme/filenames.py',
+         old="    the_file = Path(file_name)\n    number = int(0)\n    while the_file.is_file():\n        file_name = f'{name}~{number:02d}.{ext}'\n        the_file = Path(file_name)\n",
+         new="    existing = {p.name for p in Path('.').iterdir()}\n    number = int(0)\n    while file_name in existing:\n        file_name = f'{name}~{number:02d}.{ext}'\n"),
     dict(name='parameter table skips fixed-looking parameters', rule='C14.R2', file=_R,
          old='        for b in self.data.betas:\n            if any_active_bound:\n                if only_robust:\n                    arow = {', new='        for b in self.data.betas:\n            if b.robust_stdErr == 0:\n                continue\n            if any_active_bound:\n                if only_robust:\n                    arow = {'),
     dict(name='statistics not recomputed when loading a pickle', rule='C14.R3', file=_R,
